@@ -30,6 +30,8 @@ func checkC08(c *Ctx, r *Report) {
 	c08R3(c, r)
 	c08R4(c, r)
 	c08R5(c, r)
+	c08APL(c, r)
+	c08Bitmap(c, r)
 }
 
 func c08Header(c *Ctx, r *Report) {
